@@ -33,3 +33,7 @@
 ; inverse transform: len = 1,2,..,128 ; twiddle index at the start of the level: 256/len
 (define-fun inttK0 ((c Int)) Int (ite (= c 1) 256 (ite (= c 2) 128 (ite (= c 4) 64 (ite (= c 8) 32 (ite (= c 16) 16 (ite (= c 32) 8 (ite (= c 64) 4 (ite (= c 128) 2 1)))))))))
 (define-fun inttLenOK ((c Int)) Bool (or (= c 128) (= c 64) (= c 32) (= c 16) (= c 8) (= c 4) (= c 2) (= c 1) (= c 256)))
+; 2^32 * (sum over i < n of the Montgomery products of u[i][k] and v[i][k])
+(define-fun-rec dotacc ((u (Array Int (Array Int Int))) (v (Array Int (Array Int Int))) (k Int) (n Int)) Int
+  (ite (<= n 0) 0 (+ (dotacc u v k (- n 1))
+      (- (* (select (select u (- n 1)) k) (select (select v (- n 1)) k)) (* (MontT (* (select (select u (- n 1)) k) (select (select v (- n 1)) k))) DQ)))))
